@@ -20,9 +20,11 @@ func (monC06) Name() string { return "C06" }
 
 func latestRestart(p *corev1.Pod) time.Time {
 	var t time.Time
-	for _, c := range p.Status.ContainerStatuses {
-		if c.RestartCount > 0 && c.LastTerminationState.Terminated != nil && c.LastTerminationState.Terminated.FinishedAt.Time.After(t) {
-			t = c.LastTerminationState.Terminated.FinishedAt.Time
+	for _, cs := range [][]corev1.ContainerStatus{p.Status.ContainerStatuses, p.Status.InitContainerStatuses, p.Status.EphemeralContainerStatuses} {
+		for _, c := range cs {
+			if c.RestartCount > 0 && c.LastTerminationState.Terminated != nil && c.LastTerminationState.Terminated.FinishedAt.Time.After(t) {
+				t = c.LastTerminationState.Terminated.FinishedAt.Time
+			}
 		}
 	}
 	return t
@@ -131,7 +133,13 @@ func (monC06) TaskEnd(s *Sim, t *Task) {
 					why = "timeout"
 				}
 			}
-			if end.Sub(v.ERS.CreationTimestamp.Time) > af.CanaryTimeout.Duration-band {
+			// measured from the instant the Canary condition became true (this very sync if it was not
+			// true in the status read), not from the creation of the replica set
+			since := end
+			if cc := ersCond(&v.ERS.Status, edsv1.ConditionTypeCanary); cc != nil && cc.Status == corev1.ConditionTrue {
+				since = cc.LastTransitionTime.Time
+			}
+			if end.Sub(since) > af.CanaryTimeout.Duration-band {
 				mayFail = true
 			}
 		}
